@@ -27,13 +27,13 @@ PROP = dict(
     ],
     jobs=dict(
         quick=[
-            job("htlcswitch", "^TestVerifC09RefVectors$", [_VEC], 1, shards=1),
+            job("htlcswitch", "^TestVerifC09(RefVectors|Pinned)$", [_VEC, "TestVerifC09Pinned"], 1, shards=1),
             job("htlcswitch", "^TestVerifC09Forward$", [_FWD], 50000, shards=8),
             job("htlcswitch", "^TestVerifC09Transit$", [_TRN], 25000, shards=4),
             job("htlcswitch", "^TestVerifC09Switch$", [_SW], 15000, shards=4),
         ],
         thorough=[
-            job("htlcswitch", "^TestVerifC09RefVectors$", [_VEC], 1, shards=1),
+            job("htlcswitch", "^TestVerifC09(RefVectors|Pinned)$", [_VEC, "TestVerifC09Pinned"], 1, shards=1),
             job("htlcswitch", "^TestVerifC09Forward$", [_FWD], 400000, shards=12, timeout=1500),
             job("htlcswitch", "^TestVerifC09Transit$", [_TRN], 200000, shards=4, timeout=1500),
             job("htlcswitch", "^TestVerifC09Switch$", [_SW], 100000, shards=4, timeout=1500),
